@@ -82,6 +82,11 @@ func init() {
 		"bounded: S-life / S-escrow / S-attr histories to the stated depth; codec grid over the colliding id set and prices 1, 2^63-1, 2^64, 10^30"},
 		Extra: func(th bool) (extraResult, error) { return CheckEventCodecs() },
 		Runs:  []runSpec{{"S-life", 5, 6, nil}, {"S-escrow", 5, 7, nil}, {"S-leased", 5, 6, nil}}}
+	props["C08"] = propSpec{Checker: func() Checker { return chkC08{} }, Assume: []string{
+		"the statement is one-directional (a bid is accepted ONLY IF ...): accepted bids are checked against the oracle on the pre-state; rejected bids are counted but not judged",
+		"bounded: MatchRequirements grid over requirement/own/attested subsets of {a=1,b=1,a=2}, auditor lists over {U1,U2} incl. duplicates; S-attr histories to the stated depth"},
+		Extra: CheckMatchRequirements,
+		Runs:  []runSpec{{"S-attr", 9, 13, nil}, {"S-attr-leased", 4, 6, nil}}}
 	props["C03"] = propSpec{Checker: func() Checker { return chkC03{} }, Assume: common,
 		Runs: []runSpec{{"S-escrow", 5, 7, nil}, {"S-leased", 5, 6, nil}, {"S-life", 4, 6, nil}}}
 	props["C04"] = propSpec{Checker: func() Checker { return chkC04{} }, Assume: common,
